@@ -2318,6 +2318,8 @@ func c16TablesInverse(c *Ctx) {
 		ok   bool
 	}
 	var tables []*table
+	var computed [][2]string // {source table, computed table}
+	computedPos := map[string]token.Pos{}
 	for _, f := range pk.Syntax {
 		if strings.HasSuffix(p.Fset.Position(f.Pos()).Filename, "_test.go") {
 			continue
@@ -2335,6 +2337,18 @@ func c16TablesInverse(c *Ctx) {
 					}
 					lit, ok := vs.Values[i].(*ast.CompositeLit)
 					if !ok {
+						// a table computed from its mirror (`stringToX = invert(xToString)`): inverse by construction when
+						// the function ranges over its argument and stores out[value] = key
+						if call, isCall := vs.Values[i].(*ast.CallExpr); isCall && len(call.Args) == 1 {
+							if src, isID := ast.Unparen(call.Args[0]).(*ast.Ident); isID {
+								if fn := Callee(info, call); fn != nil {
+									if hd := p.DeclOf(fn.Origin()); hd != nil && hd.Decl.Body != nil && invertsItsArgument(hd) {
+										computed = append(computed, [2]string{src.Name, nm.Name})
+										computedPos[nm.Name] = nm.Pos()
+									}
+								}
+							}
+						}
 						continue
 					}
 					mt, ok := info.TypeOf(lit).Underlying().(*types.Map)
@@ -2392,9 +2406,53 @@ func c16TablesInverse(c *Ctx) {
 			c.Ob(rule, a.name+"<->"+b.name, a.pos, len(bad) == 0, true, "%d and %d entries, mismatches: %v", len(a.m), len(b.m), bad)
 		}
 	}
+	for _, pr := range computed {
+		for _, a := range tables {
+			if a.name == pr[0] {
+				n++
+				// injective source: no two keys share a value, or the inversion loses an entry
+				seen := map[string]bool{}
+				dup := ""
+				for _, v := range a.m {
+					if seen[v] {
+						dup = v
+					}
+					seen[v] = true
+				}
+				c.Ob(rule, pr[0]+"<->"+pr[1], computedPos[pr[1]], dup == "", true, "%s is computed by inverting %s (%d entries; value shared by two keys: %q)", pr[1], pr[0], len(a.m), dup)
+			}
+		}
+	}
 	if n == 0 {
 		c.Fail(rule, "anchor", token.NoPos, "no mirrored pair of constant map tables found in bufconfig")
 	}
+}
+
+// invertsItsArgument reports whether the function ranges over its (single) map parameter and stores, into the map it
+// returns, every value as key and key as value.
+func invertsItsArgument(fr *FuncRef) bool {
+	if fr.Decl.Type.Params == nil || len(fr.Decl.Type.Params.List) != 1 || len(fr.Decl.Type.Params.List[0].Names) != 1 {
+		return false
+	}
+	info := fr.Info()
+	prm := info.Defs[fr.Decl.Type.Params.List[0].Names[0]]
+	ok := false
+	ast.Inspect(fr.Decl.Body, func(n ast.Node) bool {
+		rs, isRange := n.(*ast.RangeStmt)
+		if !isRange || identObj(info, rs.X) != prm || rs.Key == nil || rs.Value == nil {
+			return true
+		}
+		k, v := identObj(info, rs.Key), identObj(info, rs.Value)
+		for _, st := range rs.Body.List {
+			if as, isAs := st.(*ast.AssignStmt); isAs && len(as.Lhs) == 1 && len(as.Rhs) == 1 && len(rs.Body.List) == 1 {
+				if ix, isIx := as.Lhs[0].(*ast.IndexExpr); isIx && identObj(info, ix.Index) == v && identObj(info, as.Rhs[0]) == k {
+					ok = true
+				}
+			}
+		}
+		return true
+	})
+	return ok
 }
 
 func sortStrings(s []string) {
